@@ -304,3 +304,34 @@ Proof.
   destruct (run_gsteps (init 2097153) (fun _ => 0) restart_example_history) as [[s v]|]; [|exact Hc].
   destruct Hb as [Hw _]. split; [exact Hw|exact Hc].
 Qed.
+
+(* capture, read off the log: after every history the newest file has the database's size and position, and every page it
+   names is the logical database's version of that page *)
+Theorem g_history_last_agree lock gs s v f rest :
+  1 <= lock -> wf_gsteps (init lock) gs -> run_gsteps (init lock) (fun _ => 0) gs = Some (s, v) ->
+  rev (ltxdir s) = f :: rest ->
+  l_commit f = pageN s /\ l_max f = txid s /\ l_post f = chk s /\
+  forall p q, In (p, q) (l_pages f) -> 1 <= p <= l_commit f -> lpage s p = q.
+Proof.
+  intros Hl Hwf Hrun Hr.
+  assert (PInv (init lock) (fun _ => 0)) as HP0.
+  { split; [unfold GInv; cbn [wal_mode init]; split; [apply j_init; exact Hl|split; reflexivity]|].
+    split; [reflexivity|]. intros f0 rest0 Hr0. cbn in Hr0. discriminate. }
+  destruct (p_history_invariant gs _ _ s v HP0 Hwf Hrun) as [_ [_ HL]]. exact (HL f rest Hr).
+Qed.
+
+Require Import LF.Proofs.ImportHistoryProofs.
+Lemma last_agree_example :
+  let pw h n := mkPg (fl h) n true in
+  wf_gsteps (init 2097153) restart_example_history /\
+  match run_gsteps (init 2097153) (fun _ => 0) restart_example_history with
+  | Some (s, _) => match rev (ltxdir s) with
+                   | f :: _ => (l_min f, l_max f, l_commit f, l_pages f, map (lpage s) [1; 2; 3], pageN s)
+                               = (3, 3, 3, [(1, pw 14 3); (2, pw 23 0); (3, pw 33 0)], [pw 14 3; pw 23 0; pw 33 0], 3)
+                   | [] => False
+                   end
+  | None => False
+  end.
+Proof.
+  cbn zeta. pose proof restart_history_example as H. destruct H as [A _]. split; [exact A|vm_compute; reflexivity].
+Qed.
